@@ -82,7 +82,7 @@ struct MaskedWorld : World {
             else if (c < 89) pl.add("s.convert", {(int64_t)r.below(NST), (int64_t)r.below(NST), n});
             else if (c < 91) pl.add("s.to_x1", {(int64_t)r.below(NST)});
             else if (c < 94) pl.add("k.key", {(int64_t)r.below(2), (int64_t)r.below(3), sd});
-            else pl.add("a.aead", {(int64_t)r.below(3), (int64_t)r.pickv({0, 1, 7, 8, 9, 15, 16, 17, 33, 100}), (int64_t)r.pickv({0, 1, 7, 8, 9, 16, 17, 40}), (int64_t)r.below(3), sd});
+            else pl.add("a.aead", {(int64_t)r.below(3), (int64_t)r.pickv({0, 1, 7, 8, 9, 15, 16, 17, 33, 100}), (int64_t)r.pickv({0, 1, 7, 8, 9, 16, 17, 40}), (int64_t)r.below(3), sd, (int64_t)r.below(6)});
         }
     }
 
@@ -419,6 +419,15 @@ struct MaskedWorld : World {
             g_tape.adv = be64(key.data());
             union { ascon_masked_key_128_t k128; ascon_masked_key_160_t k160; } mk;
             if (alg == 2) ascon_masked_key_160_init(&mk.k160, key.data()); else ascon_masked_key_128_init(&mk.k128, key.data());
+            // a key may be re-randomised any number of times at any point of its life: before its first use (1, 3),
+            // between two uses (2, 3), with the caller's or the library's own random source (4, 5 = 1 and 2 with the latter)
+            int rr = (int)(op.u(5) % 6);
+            auto rerandomize = [&](bool own) {
+                if (alg == 2) { if (own) ascon_masked_key_160_randomize(&mk.k160); else ascon_masked_key_160_randomize_with_trng(&mk.k160, &c.trng); }
+                else { if (own) ascon_masked_key_128_randomize(&mk.k128); else ascon_masked_key_128_randomize_with_trng(&mk.k128, &c.trng); }
+                run.probe("aead.key_rerandomized_in_use");
+            };
+            if (rr == 1 || rr == 3 || rr == 4) rerandomize(rr == 4);
             GuardBuf ct(mlen + 16, (unsigned)mlen, false), ref(mlen + 16, 1, false);
             size_t cl = 0, rl = 0;
             const uint8_t *mp = mlen ? m.data() : nullptr, *ap = adlen ? ad.data() : nullptr;
@@ -438,6 +447,7 @@ struct MaskedWorld : World {
             GuardBuf pm(mlen, 2, false), pr(mlen, 3, false);
             size_t ml = 0, rl2 = 0;
             int r1, r2;
+            if (rr == 2 || rr == 3 || rr == 5) rerandomize(rr == 5);
             if (alg == 0) { r1 = ascon128_masked_aead_decrypt(pm.p, &ml, x.data(), x.size(), ap, adlen, nonce.data(), &mk.k128); r2 = ascon128_aead_decrypt(pr.p, &rl2, x.data(), x.size(), ap, adlen, nonce.data(), key.data()); }
             else if (alg == 1) { r1 = ascon128a_masked_aead_decrypt(pm.p, &ml, x.data(), x.size(), ap, adlen, nonce.data(), &mk.k128); r2 = ascon128a_aead_decrypt(pr.p, &rl2, x.data(), x.size(), ap, adlen, nonce.data(), key.data()); }
             else { r1 = ascon80pq_masked_aead_decrypt(pm.p, &ml, x.data(), x.size(), ap, adlen, nonce.data(), &mk.k160); r2 = ascon80pq_aead_decrypt(pr.p, &rl2, x.data(), x.size(), ap, adlen, nonce.data(), key.data()); }
